@@ -20,9 +20,11 @@ def concretise(words: list[dict], variant: int = 0, positional: bool = True) -> 
         if k == "p":
             c = PLAIN[(j + variant) % len(PLAIN)]
             out.append(c * n)
-        elif k == "s":  # sentence-ending word of length n >= 3 (two letters, last lowercase, then '.')
+        elif k == "s":  # sentence-ending word of length n >= 3: letters (last lowercase) + one of the endings SENTENCE_END_RE accepts
             c = "abcdefg"[(j + variant) % 7]
-            out.append(c * (n - 1) + ".")
+            ends = [".", "?", "!"] if n < 5 else [".", "?", "!", ".\"", ".'", ".”", ".’", ".)", "\".", "’.", ")!", "”?"]
+            e = ends[(j + variant) % len(ends)]
+            out.append(c * (n - len(e)) + e)
         elif k == "h":
             out.append(HAZ[(j + variant) % len(HAZ)])
         elif k == "n":
